@@ -137,6 +137,10 @@ func replayCase(ctx *core.Ctx, fam string, tc tlcCase) {
 		case cs.Obs.Panicked:
 			feature = "panic"
 		case tc.R.Exp.T == "unspec":
+		case tc.R.Exp.T == "noval":
+			if !cs.Obs.Err && cs.Obs.Out != "" && cs.Obs.Out != "null" && cs.Obs.Out != "undefined" {
+				feature = "text-for-an-expression-without-value"
+			}
 		case tc.R.Exp.T == "err" && !cs.Obs.Err:
 			feature = "missing-error"
 		case tc.R.Exp.T == "out" && cs.Obs.Err:
